@@ -58,7 +58,56 @@ type c05Witness struct {
 	Spec    c05Spec `json:"spec"`
 	Choices []int   `json:"choices"`
 	Depth   int     `json:"depth"`
+	// directed family: named application, mode/config, input history
+	Directed string   `json:"directed_app,omitempty"`
+	Opts     lsOpts   `json:"opts,omitempty"`
+	Inputs   []string `json:"inputs,omitempty"`
 }
+
+// c05Directed: small named applications for situations the generated family does not contain.
+func c05Directed(name string) *app.App {
+	a := app.New(name)
+	catch := func() {
+		a.Node("_catch", "catch", codec.Ins{Op: codec.HALT}, codec.Ins{Op: codec.INCMP, Sym: "_", Sel: "*"})
+	}
+	switch name {
+	case "catchmap":
+		// a value mapped at the entry node, then a taken CATCH: the target's template must not see it
+		a.FlagCount = 2
+		a.Node("root", "root {{.xx}}", codec.Ins{Op: codec.LOAD, Sym: "xx", N: 8}, codec.Ins{Op: codec.MAP, Sym: "xx"}, codec.Ins{Op: codec.LOAD, Sym: "setf", N: 0},
+			codec.Ins{Op: codec.CATCH, Sym: "other", N: 8, Mode: true}, codec.Ins{Op: codec.HALT}, codec.Ins{Op: codec.INCMP, Sym: "plain", Sel: "1"})
+		a.Node("other", "other {{.xx}}", codec.Ins{Op: codec.HALT}, codec.Ins{Op: codec.INCMP, Sym: "_", Sel: "0"})
+		a.Node("plain", "plain", codec.Ins{Op: codec.HALT}, codec.Ins{Op: codec.INCMP, Sym: "_", Sel: "0"})
+		a.Func("xx", constFunc("xval"))
+		a.Func("setf", func(e *app.Env, sym string, in []byte, l string) (resource.Result, error) {
+			return resource.Result{FlagSet: []uint32{8}}, nil
+		})
+		a.WithInputs("1", "0")
+	case "sinkreuse":
+		// the same symbol is a sink (size 0) in one node and an ordinary sized value in another
+		a.Node("root", "root", codec.Ins{Op: codec.MOUT, Sym: "a", Sel: "1"}, codec.Ins{Op: codec.MOUT, Sym: "b", Sel: "2"}, codec.Ins{Op: codec.HALT},
+			codec.Ins{Op: codec.INCMP, Sym: "aaa", Sel: "1"}, codec.Ins{Op: codec.INCMP, Sym: "bbb", Sel: "2"})
+		a.Node("aaa", "A {{.foo}}", codec.Ins{Op: codec.LOAD, Sym: "foo", N: 0}, codec.Ins{Op: codec.MAP, Sym: "foo"}, codec.Ins{Op: codec.MOUT, Sym: "back", Sel: "0"}, codec.Ins{Op: codec.HALT},
+			codec.Ins{Op: codec.INCMP, Sym: "_", Sel: "0"})
+		a.Node("bbb", "B {{.foo}}", codec.Ins{Op: codec.LOAD, Sym: "foo", N: 40}, codec.Ins{Op: codec.MAP, Sym: "foo"}, codec.Ins{Op: codec.MOUT, Sym: "back", Sel: "0"}, codec.Ins{Op: codec.HALT},
+			codec.Ins{Op: codec.INCMP, Sym: "_", Sel: "0"})
+		a.Func("foo", constFunc("one\ntwo\nthree"))
+		a.WithInputs("1", "2", "0")
+	case "lastleft":
+		// a value loaded below the entry node, the level left again, then the session ends one level up
+		a.Node("root", "top", codec.Ins{Op: codec.MOUT, Sym: "in", Sel: "1"}, codec.Ins{Op: codec.MOUT, Sym: "quit", Sel: "2"}, codec.Ins{Op: codec.HALT},
+			codec.Ins{Op: codec.INCMP, Sym: "cc", Sel: "1"}, codec.Ins{Op: codec.INCMP, Sym: "fin", Sel: "2"})
+		a.Node("cc", "cc {{.cv}}", codec.Ins{Op: codec.LOAD, Sym: "cv", N: 20}, codec.Ins{Op: codec.MAP, Sym: "cv"}, codec.Ins{Op: codec.MOUT, Sym: "back", Sel: "0"}, codec.Ins{Op: codec.MOUT, Sym: "quit", Sel: "2"}, codec.Ins{Op: codec.HALT},
+			codec.Ins{Op: codec.INCMP, Sym: "_", Sel: "0"}, codec.Ins{Op: codec.INCMP, Sym: "fin", Sel: "2"})
+		a.Node("fin", "bye", codec.Ins{Op: codec.HALT})
+		a.Func("cv", constFunc("good day"))
+		a.WithInputs("1", "0", "2")
+	}
+	catch()
+	return a
+}
+
+var c05DirectedNames = []string{"catchmap", "sinkreuse", "lastleft"}
 
 var c05Answers = []string{"", "", "a\nb", "12345", strings.Repeat("x", 65536)} // index 0 replaced by "v<k>"
 
@@ -318,12 +367,41 @@ func c05Replay(w json.RawMessage) (string, string) {
 	if err := json.Unmarshal(w, &wit); err != nil {
 		return "bad-witness", err.Error()
 	}
+	if wit.Directed != "" {
+		s, m, _ := lockstep(c05Directed(wit.Directed), wit.Opts, wit.Inputs, nil)
+		return s, m
+	}
 	var sig, msg string
 	mc.Replay(wit.Choices, func(x *mc.Chooser) { sig, msg, _ = c05Exec(wit.Spec, wit.Depth, x, nil) })
 	return sig, msg
 }
 
 func c05Run(c *mc.Ctx) {
+	// directed family: all histories of depth 4 (5 thorough), long-lived and persisted, with and without an output size
+	dd := 4
+	if c.Thorough() {
+		dd = 5
+	}
+	for _, name := range c05DirectedNames {
+		for _, o := range []lsOpts{{Mode: "long-lived"}, {Mode: "persisted", Backend: "mem"}, {Mode: "long-lived", Cfg: engine.Config{OutputSize: 100}}, {Mode: "persisted", Backend: "mem", Cfg: engine.Config{OutputSize: 100}}} {
+			if !c.Mine() {
+				continue
+			}
+			a := c05Directed(name)
+			histories(a.Inputs, dd, func(h []string) {
+				h = append([]string{""}, h...)
+				sig, msg, reqs := lockstep(a, o, h, func(k int, rv *ref.VM, got app.Resp, want ref.Resp) {
+					c.Distinct("states", name, rv.Nav.Path(), rv.CacheKey())
+				})
+				c.Count("evaluations", 1)
+				c.Count("directed_histories", 1)
+				c.Count("transitions", int64(reqs))
+				if sig != "" {
+					c.Fail(sig, msg, c05Witness{Directed: name, Opts: o, Inputs: h})
+				}
+			})
+		}
+	}
 	type bound struct{ depth, dev int }
 	bounds := []bound{{4, 0}, {3, 1}}
 	if c.Thorough() {
